@@ -360,3 +360,17 @@ ENTRIES += [
     M("C01-gym-adapter-stale-state", ["C01", "C13"], ["C01.8", "C13.7"], (CG, "        self.state, obs, rew, term, trunc, info = self.env.step(", "        _, obs, rew, term, trunc, info = self.env.step(")),
     V("C01-v-or-order", "C01", (BE, "            terminal | truncate, lambda: self.initial(key=reset_key), lambda: next_state", "            truncate | terminal, lambda: self.initial(key=reset_key), lambda: next_state")),
 ]
+
+ENTRIES += [
+    # ---------------------------------------------------------------- C18
+    M("C18-mkdir-after-write", "C18", "C18.1", (UT, "        if not path.parent.exists():\n            path.parent.mkdir(parents=True, exist_ok=True)\n        if path.suffix != \".eqx\" and not no_suffix:\n            path = path.with_suffix(\".eqx\")\n\n        eqx.tree_serialise_leaves(path, self)",
+       "        if path.suffix != \".eqx\" and not no_suffix:\n            path = path.with_suffix(\".eqx\")\n\n        eqx.tree_serialise_leaves(path, self)\n        if not path.parent.exists():\n            path.parent.mkdir(parents=True, exist_ok=True)")),
+    M("C18-mkdir-noparents", "C18", "C18.1", (UT, "path.parent.mkdir(parents=True, exist_ok=True)", "path.parent.mkdir(exist_ok=True)")),
+    M("C18-writer-suffix-dropped", "C18", "C18.2", (UT, "            path = path.with_suffix(\".eqx\")\n", "            path = path.with_suffix(\".npz\")\n")),
+    M("C18-writer-suffix-inverted", "C18", "C18.2", (UT, "        if path.suffix != \".eqx\" and not no_suffix:", "        if path.suffix == \".eqx\" and not no_suffix:")),
+    M("C18-skeleton-other-class", "C18", "C18.3", (UT, "path, eqx.filter_eval_shape(cls, *args, **kwargs)", "path, eqx.filter_eval_shape(Serializable, *args, **kwargs)")),
+    M("C18-skeleton-drops-kwargs", "C18", "C18.3", (UT, "path, eqx.filter_eval_shape(cls, *args, **kwargs)", "path, eqx.filter_eval_shape(cls, *args)")),
+    M("C18-writer-filter-spec", "C18", "C18.3", (UT, "        eqx.tree_serialise_leaves(path, self)", "        eqx.tree_serialise_leaves(path, self, is_leaf=lambda x: False)")),
+    M("C18-reader-suffix", "C18", "C18.2", (UT, "        return eqx.tree_deserialise_leaves(\n            path, eqx.filter_eval_shape", "        return eqx.tree_deserialise_leaves(\n            str(path) + \".eqx\", eqx.filter_eval_shape")),
+    M("C18-policy-not-serializable", "C18", "C18.4", ("lerax/policy/base_policy.py", "    Serializable\n):", "    eqx.Module\n):")),
+]
